@@ -968,7 +968,11 @@ class URL:
                 return from_parts(self._scheme, self._netloc, path, "", "")
             return self
         parts = path.split("/")
-        return from_parts(self._scheme, self._netloc, "/".join(parts[:-1]), "", "")
+        parent_path = "/".join(parts[:-1])
+        if not parent_path and path[0] == "/":
+            # the parent of a top-level name is the root, not the empty path
+            parent_path = "/"
+        return from_parts(self._scheme, self._netloc, parent_path, "", "")
 
     @cached_property
     def raw_name(self) -> str:
